@@ -210,6 +210,7 @@ proof fn lemma_next_end3_sem(dg: &Dg, q0: Seq<Step>, vis0: Seq<bool>, q: Seq<Ste
     let lv2 = lv.skip(1) + Seq::new(add.len(), |k: int| lv[0] + 1);
     assert(forall|k: int| 0 <= k < add.len() ==> 0 <= #[trigger] add[k] < vis0.len()) by { reveal(step_done); }
     lemma_bridge_pred(q0, q, add);
+    lemma_bflat(has, qv, lv, vis0, srcs, d);
     lemma_step_done_bstep(dg, q0[0].1, vis0, vis, add, qv, lv, qv2, lv2);
     assert(pstep(has, qv, pv, lv, vis0, qv2, pv2, lv2, vis, add));
     lemma_pnext_post(has, qv, pv, lv, vis0, qv2, pv2, lv2, vis, add, srcs);
@@ -416,6 +417,20 @@ proof fn lemma_cycle(dg: &Dg, pr: Seq<Option<usize>>, v: usize, x: usize, p: Seq
     assert(c.last() == p[0]);
 }
 
+/// every search path from v to an out-neighbour x of v, reversed, is an elementary cycle
+proof fn lemma_cycle_all(dg: &Dg, pr: Seq<Option<usize>>, v: usize, x: usize)
+    requires
+        dg.wf(),
+        pred_arcs(dg, pr),
+        dg.has(v as int, x as int),
+    ensures
+        forall|p: Seq<usize>| #[trigger] link_path(pr, v, p) && p.last() == x && distinct(p) ==> elem_cycle(dg, p.reverse()),
+{
+    assert forall|p: Seq<usize>| #[trigger] link_path(pr, v, p) && p.last() == x && distinct(p) implies elem_cycle(dg, p.reverse()) by {
+        lemma_cycle(dg, pr, v, x, p);
+    }
+}
+
 // ---------------------------------------------------------------------------------------------
 // BfsPred
 // ---------------------------------------------------------------------------------------------
@@ -599,6 +614,7 @@ impl<'a> BfsPred<'a> {
         forall|v: int| 0 <= v < r.pred@.len() && !reachable(old(self).has(), old(self).srcs(), v) ==> #[trigger] r.pred@[v] is None,
         forall|v: int| 0 <= v < r.pred@.len() && reachable(old(self).has(), old(self).srcs(), v) && !old(self).srcs().contains(v)
             ==> tight_pred(old(self).has(), old(self).srcs(), #[trigger] r.pred@[v], v),
+        forall|v: int| #[trigger] reachable(old(self).has(), old(self).srcs(), v) ==> 0 <= v < r.pred@.len() && root_at(old(self).has(), old(self).srcs(), r.pred@, v),
     @fn_start
         proof { self.lemma_fresh_inv(); lemma_ct_bounds(self.visited@); }
     @after `let mut pred =`
@@ -618,9 +634,9 @@ impl<'a> BfsPred<'a> {
         self.fuel(),
     @before_call 1
         let ghost prev = *self;
-    @before `*pred_ptr.add(v) = u;`
+    @before `*pred_ptr.add(`
         let ghost pr0 = pred.pred@;
-    @after `*pred_ptr.add(v) = u;`
+    @after `*pred_ptr.add(`
         proof {
             assert(prev.inv(old(self).srcs()));
             assert(next_sem3(prev.digraph, prev.queue@, prev.visited@, self.queue@, self.visited@, old(self).srcs()));
@@ -634,12 +650,17 @@ impl<'a> BfsPred<'a> {
         }
     @*/
 
+    // loop_isolation(false): with isolated loops Verus loses the initial value of the `mut path` closure parameter
+    // (a closure inside a loop whose parameter is mutated), so the closure's own postcondition is unprovable
+    #[verifier::loop_isolation(false)]
+    #[verifier::allow_complex_invariants]
     /*@fn impl=BfsPred name=shortest_path subst=D=>Dg drop=D dropwhere=D
     requires
         old(self).fresh(),
         tcallable(is_target),
         tdet(is_target),
     ensures
+        final(self).wf(),
         r is None ==> forall|v: int| #[trigger] reachable(old(self).has(), old(self).srcs(), v) ==> tsays(is_target, v as usize, false),
         r matches Some(p) ==> sp_ok(old(self).has(), old(self).srcs(), is_target, p@),
     @fn_start
@@ -664,9 +685,9 @@ impl<'a> BfsPred<'a> {
         self.fuel(),
     @before_call 1
         let ghost prev = *self;
-    @before `*pred_ptr.add(v) = u;`
+    @before `*pred_ptr.add(`
         let ghost pr0 = pred.pred@;
-    @after `*pred_ptr.add(v) = u;`
+    @after `*pred_ptr.add(`
         proof {
             assert(prev.inv(old(self).srcs()));
             assert(next_sem3(prev.digraph, prev.queue@, prev.visited@, self.queue@, self.visited@, old(self).srcs()));
@@ -729,18 +750,187 @@ impl<'a> BfsPred<'a> {
         all_cycles(self.digraph, cycles@),
     @loop_start 2
         proof { assert(x == it2.seq()[it2.index()]); }
-    @before `path.reverse();`
-        let ghost p0 = path@;
+    @before `if let Some(mut path) = pred.search`
         let ghost c0: Seq<Vec<usize>> = cycles@;
+        proof { lemma_cycle_all(self.digraph, pred.pred@, v, x); }
     @after `cycles.push(path);`
         proof {
-            lemma_cycle(self.digraph, pred.pred@, v, x, p0);
             assert forall|i: int| 0 <= i < cycles@.len() implies elem_cycle(self.digraph, (#[trigger] cycles@[i])@) by {
                 if i < c0.len() { assert(cycles@[i] == c0[i]); }
             }
             assert(all_cycles(self.digraph, cycles@));
         }
     @*/
+}
+
+// ---------------------------------------------------------------------------------------------
+// C05 trace theorem: a verified CLIENT of the contracts of `new` / `next` (template code, not extracted from /repo).
+// It shows that repeated `next` gives exactly the behaviour the property text relies on.
+// ---------------------------------------------------------------------------------------------
+spec fn occurs3(s: Seq<Step>, v: int) -> bool { exists|i: int| 0 <= i < s.len() && (#[trigger] s[i]).1 == v }
+
+/// the i-th yielded item (p, x): p is None iff x is a source; otherwise p was yielded earlier, p -> x is an arc and
+/// hop(p) + 1 == hop(x)
+spec fn titem_ok(has: ArcRel, srcs: Set<int>, out: Seq<Step>, i: int) -> bool {
+    let x = out[i].1 as int;
+    match out[i].0 {
+        None => srcs.contains(x),
+        Some(p) => !srcs.contains(x) && has(p as int, x) && hop(has, srcs, p as int) + 1 == hop(has, srcs, x)
+            && exists|j: int| 0 <= j < i && (#[trigger] out[j]).1 == p,
+    }
+}
+
+/// the statement for the items `out` yielded so far by a BfsPred in state (q, vis)
+#[verifier::opaque]
+spec fn trace3(has: ArcRel, srcs: Set<int>, out: Seq<Step>, q: Seq<Step>, vis: Seq<bool>) -> bool {
+    &&& forall|i: int, j: int| 0 <= i < j < out.len() ==> (#[trigger] out[i]).1 != (#[trigger] out[j]).1
+    &&& forall|v: int| is_done(qv_of3(q), vis, v) <==> #[trigger] occurs3(out, v)
+    &&& forall|i: int| 0 <= i < out.len() ==> is_min_walk_weight(has, unit_w(), srcs, (#[trigger] out[i]).1 as int, hop(has, srcs, out[i].1 as int))
+    &&& forall|i: int, j: int| 0 <= i <= j < out.len() ==> hop(has, srcs, (#[trigger] out[i]).1 as int) <= hop(has, srcs, (#[trigger] out[j]).1 as int)
+    &&& forall|i: int, t: int| 0 <= i < out.len() && !#[trigger] is_done(qv_of3(q), vis, t) ==> is_lower_bound(has, unit_w(), srcs, t, hop(has, srcs, (#[trigger] out[i]).1 as int))
+    &&& forall|i: int| 0 <= i < out.len() ==> #[trigger] titem_ok(has, srcs, out, i)
+}
+
+proof fn lemma_trace3_init(has: ArcRel, srcs: Set<int>, q: Seq<Step>, vis: Seq<bool>)
+    requires forall|v: int| !is_done(qv_of3(q), vis, v),
+    ensures trace3(has, srcs, Seq::<Step>::empty(), q, vis),
+{
+    reveal(trace3);
+}
+
+proof fn lemma_trace3_step(dg: &Dg, srcs: Set<int>, out0: Seq<Step>, q0: Seq<Step>, vis0: Seq<bool>, q: Seq<Step>, vis: Seq<bool>)
+    requires
+        trace3(dg_has(dg), srcs, out0, q0, vis0),
+        q0.len() > 0,
+        next_sem3(dg, q0, vis0, q, vis, srcs),
+    ensures
+        trace3(dg_has(dg), srcs, out0.push(q0[0]), q, vis),
+{
+    reveal(trace3);
+    let has = dg_has(dg);
+    let it = q0[0];
+    let x = it.1 as int;
+    let h = hop(has, srcs, x);
+    let out = out0.push(it);
+    let n = out0.len() as int;
+    assert(!occurs3(out0, x));
+    assert(out[n] == it);
+    assert forall|v: int| is_done(qv_of3(q), vis, v) <==> #[trigger] occurs3(out, v) by {
+        if occurs3(out0, v) {
+            let i = choose|i: int| 0 <= i < out0.len() && (#[trigger] out0[i]).1 == v;
+            assert(out[i].1 == v);
+        }
+        if occurs3(out, v) && v != x {
+            let i = choose|i: int| 0 <= i < out.len() && (#[trigger] out[i]).1 == v;
+            assert(out0[i].1 == v);
+        }
+    }
+    assert forall|i: int| 0 <= i < n implies hop(has, srcs, (#[trigger] out[i]).1 as int) <= h by {
+        assert(out[i] == out0[i]);
+        assert(!is_done(qv_of3(q0), vis0, x));
+        assert(is_lower_bound(has, unit_w(), srcs, x, hop(has, srcs, out0[i].1 as int)));
+        lemma_lb_le(has, srcs, x, hop(has, srcs, out0[i].1 as int), h);
+    }
+    assert forall|i: int, j: int| 0 <= i < j < out.len() implies (#[trigger] out[i]).1 != (#[trigger] out[j]).1 by {
+        if j == n { assert(out0[i] == out[i]); assert(occurs3(out0, out0[i].1 as int)); }
+        else { assert(out0[i] == out[i] && out0[j] == out[j]); }
+    }
+    assert forall|i: int| 0 <= i < out.len() implies is_min_walk_weight(has, unit_w(), srcs, (#[trigger] out[i]).1 as int, hop(has, srcs, out[i].1 as int)) by {
+        if i < n { assert(out[i] == out0[i]); }
+    }
+    assert forall|i: int, j: int| 0 <= i <= j < out.len() implies hop(has, srcs, (#[trigger] out[i]).1 as int) <= hop(has, srcs, (#[trigger] out[j]).1 as int) by {
+        if j < n { assert(out0[i] == out[i] && out0[j] == out[j]); }
+        else if i < n { assert(out0[i] == out[i]); }
+    }
+    assert forall|i: int, t: int| 0 <= i < out.len() && !#[trigger] is_done(qv_of3(q), vis, t) implies is_lower_bound(has, unit_w(), srcs, t, hop(has, srcs, (#[trigger] out[i]).1 as int)) by {
+        assert(!is_done(qv_of3(q0), vis0, t));
+        if i < n { assert(out[i] == out0[i]); }
+    }
+    assert forall|i: int| 0 <= i < out.len() implies #[trigger] titem_ok(has, srcs, out, i) by {
+        if i < n {
+            assert(out[i] == out0[i]);
+            assert(titem_ok(has, srcs, out0, i));
+            match out0[i].0 {
+                Some(p) => {
+                    let j = choose|j: int| 0 <= j < i && (#[trigger] out0[j]).1 == p;
+                    assert(out[j] == out0[j]);
+                }
+                None => {}
+            }
+        } else {
+            match it.0 {
+                Some(u) => {
+                    lemma_hop(has, srcs, u as int, h - 1);
+                    assert(occurs3(out0, u as int));
+                    let j = choose|j: int| 0 <= j < out0.len() && (#[trigger] out0[j]).1 == u as int;
+                    assert(out[j] == out0[j]);
+                }
+                None => {}
+            }
+        }
+    }
+}
+
+/// BfsPred from distinct in-range sources yields every reachable vertex exactly once and nothing else, in non-decreasing
+/// order of hop distance from the nearest source; sources come with None, every other vertex with a predecessor that
+/// was yielded earlier, is an in-neighbour and is exactly one hop closer
+fn c05_bfs_pred_trace(b: &mut BfsPred<'_>) -> (out: Vec<Step>)
+    requires
+        old(b).fresh(),
+    ensures
+        forall|i: int, j: int| 0 <= i < j < out@.len() ==> (#[trigger] out@[i]).1 != (#[trigger] out@[j]).1,
+        forall|v: int| reachable(old(b).has(), old(b).srcs(), v) <==> #[trigger] occurs3(out@, v),
+        forall|i: int| 0 <= i < out@.len() ==> is_min_walk_weight(old(b).has(), unit_w(), old(b).srcs(), (#[trigger] out@[i]).1 as int, hop(old(b).has(), old(b).srcs(), out@[i].1 as int)),
+        forall|i: int, j: int| 0 <= i <= j < out@.len() ==> hop(old(b).has(), old(b).srcs(), (#[trigger] out@[i]).1 as int) <= hop(old(b).has(), old(b).srcs(), (#[trigger] out@[j]).1 as int),
+        forall|i: int| 0 <= i < out@.len() ==> #[trigger] titem_ok(old(b).has(), old(b).srcs(), out@, i),
+{
+    let mut out: Vec<Step> = Vec::new();
+    let ghost has = b.has();
+    let ghost srcs = b.srcs();
+    proof {
+        b.lemma_fresh_inv();
+        lemma_ct_bounds(b.visited@);
+        lemma_trace3_init(has, srcs, b.queue@, b.visited@);
+    }
+    let ghost mut prev = *b;
+    loop
+        invariant_except_break
+            prev == *b,
+        invariant
+            b.wf(),
+            b.digraph == old(b).digraph,
+            has == old(b).has(),
+            srcs == old(b).srcs(),
+            b.inv(srcs),
+            b.fuel() >= 0,
+            trace3(has, srcs, out@, b.queue@, b.visited@),
+        ensures
+            forall|v: int| is_done(qv_of3(b.queue@), b.visited@, v) <==> reachable(has, srcs, v),
+        decreases
+            b.fuel(),
+    {
+        match b.next() {
+            Some(x) => {
+                proof {
+                    assert(prev.inv(srcs));
+                    lemma_trace3_step(b.digraph, srcs, out@, prev.queue@, prev.visited@, b.queue@, b.visited@);
+                }
+                out.push(x);
+                proof { prev = *b; }
+            }
+            None => {
+                proof {
+                    assert(prev.inv(srcs));
+                    assert forall|v: int| is_done(qv_of3(b.queue@), b.visited@, v) <==> reachable(has, srcs, v) by {
+                        assert(prev.done(v) <==> reachable(prev.has(), srcs, v));
+                    }
+                }
+                break;
+            }
+        }
+    }
+    proof { reveal(trace3); }
+    out
 }
 
 } // verus!
